@@ -605,8 +605,8 @@ func decodeMixed(c *Ctx, prop string, class int) {
 				n = (3 << 20) / junk
 			}
 			if w := c.L("gen:w"); w.Chance(1, 3) {
-				kind, sub, junk = 9+w.Intn(4), w.Intn(8), w.Intn(4)
-				n = []int{4000, 25000, 60000, 150000}[w.Intn(4)]
+				kind, sub, junk = 9+w.Intn(4), w.Intn(10), w.Intn(4)
+				n = []int{4000, 25000, 60000, 150000, 400000}[w.Intn(5)]
 			}
 			data = gengen.ManyTiny(kind, sub, n, junk)
 			name = fmt.Sprintf("manytiny(kind=%d sub=%d n=%d junk=%d)", kind, sub, n, junk)
